@@ -318,14 +318,21 @@ class AsynchronousDeferredRunTest(_DeferredRunTest):
             # (Not maybeDeferred(f, *args, **kwargs): a cleanup may take a
             # keyword argument called 'f'.)
             d = defer.maybeDeferred(lambda: f(*args, **kwargs))
-            try:
-                yield d
-            except GeneratorExit:
-                raise
-            except BaseException:
-                # KeyboardInterrupt and friends are recorded like any other
-                # failure of a cleanup; the remaining cleanups still run.
-                exc_info = sys.exc_info()
+            # KeyboardInterrupt and friends are recorded like any other
+            # failure of a cleanup; the remaining cleanups still run.  The
+            # failure is collected by an errback rather than by catching what
+            # 'yield' raises, so that a GeneratorExit raised by a cleanup is
+            # not mistaken for this generator being closed.
+            failures = []
+            d.addErrback(failures.append)
+            yield d
+            if failures:
+                failure = failures[0]
+                exc_info = (
+                    failure.type,
+                    failure.value,
+                    failure.getTracebackObject(),
+                )
                 self.case._report_traceback(exc_info)
                 last_exception = exc_info[1]
         return last_exception
